@@ -260,7 +260,8 @@ func (x *Exec) store(st State, p Value, v Value, typ types.Type, site string) {
 // havocAll forgets every heap component (used only at unsupported sites).
 func (x *Exec) havocAll(st State, site string) {
 	x.havoc(site + " [heap havoc]")
-	for name, sort := range x.E.CompSorts {
+	for _, name := range x.E.compNames() {
+		sort := x.E.CompSorts[name]
 		if name == "alloc" {
 			continue
 		}
@@ -453,7 +454,7 @@ func (x *Exec) mergeStates(c Term, a, b State) State {
 	for k := range b {
 		out[k] = Term{}
 	}
-	for k := range out {
+	for _, k := range sortedKeys(out) {
 		ta := x.comp(a, k)
 		tb := x.comp(b, k)
 		if ta.S == tb.S {
